@@ -245,7 +245,7 @@ CHECKS = {
              "interpreter's run along it is verified step by step by Evm!Step, every node of the final symbolic stack, memory "
              "words and storage generations is given a scratch value verified by Evm!NodeClaimOK (the operator over its operands "
              "in EVM order), and EvmTrace.tla checks Inv_C07_Stack, Inv_C07_Memory, Inv_C07_Storage (exactly this path's "
-             "writes, in order, one entry per slot word) and Inv_C07_Path. The memory of a path is also specified on its own (Memory.tla): MemoryMC checks every history of <= 4 calls over offsets of which two pairs agree modulo 2^64 against a concrete memory, and random histories on the real Memory (offsets agreeing in their low 16..255 bits, pushed or computed, byte stores, slices around the copy limit) are validated by MemoryTrace.tla (Inv_C07_Memory/memory-model). A fold-offset family uses every ALU result as a memory offset (XOR-ed with the expected value), so that a wrong fold of the operator moves the store.",
+             "writes, in order, one entry per slot word) and Inv_C07_Path. The memory of a path is also specified on its own (Memory.tla): MemoryMC checks every history of <= 5 / 6 calls over offsets of which two pairs agree modulo 2^64 against a concrete memory, and random histories on the real Memory (offsets agreeing in their low 16..255 bits, pushed or computed, byte stores, slices around the copy limit) are validated by MemoryTrace.tla (Inv_C07_Memory/memory-model). A fold-offset family uses every ALU result as a memory offset (XOR-ed with the expected value), so that a wrong fold of the operator moves the store.",
         note="Four genuine shortfalls are known findings, recognised by what the path did (SIGNEXTEND, overflowing ADDMOD/MULMOD, "
              "BYTE with an index >= 2^253, programs that address one slot through two key expressions); a disagreement is excused only "
              "when every disagreeing item is computed from a node built at an instruction that ran into one of them (per-node taint), "
